@@ -645,7 +645,7 @@ func c16HexNumbers(text string, rng *rand.Rand) string {
 // u0x upper/lower case) must give the type LLVM reads: equal to the type built
 // from the number, and unequal to the types of the neighbouring numbers.
 func c16NumberSpellings(r *fw.Rec) {
-	nums := []uint64{0, 1, 7, 9, 10, 15, 16, 17, 31, 32, 99, 100, 255, 256, 4096, 65535, 65536, 65537, 1 << 20, 1<<24 - 1}
+	nums := []uint64{0, 1, 7, 9, 10, 15, 16, 17, 31, 32, 99, 100, 255, 256, 4096, 65535, 65536, 65537, 1 << 20, 1<<24 - 1, 1 << 31, 1<<32 + 1, 1<<63 - 1, 1 << 63, 1<<64 - 1}
 	spell := func(n uint64) []string {
 		return []string{fmt.Sprint(n), fmt.Sprintf("0%d", n), fmt.Sprintf("u0x%X", n), fmt.Sprintf("u0x%x", n), fmt.Sprintf("u0x0%X", n)}
 	}
@@ -665,9 +665,12 @@ func c16NumberSpellings(r *fw.Rec) {
 				sv.Scalable = true
 				probes = append(probes, probe{fmt.Sprintf("<vscale x %s x i8>", sp), sv, n, "svec"})
 			}
-			pt := types.NewPointer(types.I8)
-			pt.AddrSpace = types.AddrSpace(n)
-			probes = append(probes, probe{fmt.Sprintf("i8 addrspace(%s)*", sp), pt, n, "ptr"})
+			if n < 1<<24 {
+				// (LLVM's address spaces have 24 bits)
+				pt := types.NewPointer(types.I8)
+				pt.AddrSpace = types.AddrSpace(n)
+				probes = append(probes, probe{fmt.Sprintf("i8 addrspace(%s)*", sp), pt, n, "ptr"})
+			}
 		}
 	}
 	var sb strings.Builder
